@@ -7,7 +7,8 @@ CONSTANTS
   Literal = TRUE
   FixDel = TRUE
   CreateNils = TRUE
+  AtomicNewRef = TRUE
 SPECIFICATION Spec
-INVARIANTS MutualExclusion NoUseAfterRelease NoDeadlock NoLockLeft ReturnedHoldNothing Linearizable
+INVARIANTS MutualExclusion NoUseAfterRelease NoOrphanEntry NoDeadlock NoLockLeft ReturnedHoldNothing Linearizable
 PROPERTIES EveryOpReturns
 CHECK_DEADLOCK FALSE
